@@ -17,6 +17,7 @@ import (
 	"github.com/zishang520/engine.io/v2/engine"
 	"github.com/zishang520/engine.io/v2/simrt"
 	"github.com/zishang520/engine.io/v2/types"
+	"github.com/zishang520/engine.io/v2/utils"
 )
 
 // Ev is one entry of the recorded history.  Seq is the global event number:
@@ -52,6 +53,7 @@ type OptSpec struct {
 	Cookie         *CookieSpec `json:"cookie,omitempty"`
 	Cors           *CorsSpec   `json:"cors,omitempty"`
 	AllowRequest   string      `json:"allowRequest,omitempty"` // "", "ok", "deny:<text>", "deny-origin:<origin>"
+	AppCookie      bool        `json:"appCookie,omitempty"`    // the application's initial_headers listener adds a Set-Cookie of its own
 	AllowSlowMs    int         `json:"allowSlowMs,omitempty"`  // the allow-request hook takes that long to decide (a lookup in a database)
 	FailMiddleware bool        `json:"failMw,omitempty"`
 }
@@ -355,6 +357,15 @@ func (w *World) startServer(o *OptSpec, att *AttachSpec) {
 	srv.On("initial_headers", func(a ...any) {
 		ctx, _ := a[1].(*types.HttpContext)
 		w.recx(Ev{Sess: w.ctxAlias(ctx), Kind: "initial_headers", S: ctxURL(ctx)})
+		if o.AppCookie {
+			// what the event exists for: the application adds a header of its own to the handshake response - a
+			// sticky-session cookie next to the session cookie
+			if h, ok := a[0].(*utils.ParameterBag); ok {
+				h.Add("Set-Cookie", "route=node-1; Path=/")
+				h.Add("X-Route", "node-1")
+				w.probe("application_adds_cookie_in_initial_headers")
+			}
+		}
 	})
 	srv.On("headers", func(a ...any) {
 		ctx, _ := a[1].(*types.HttpContext)
